@@ -161,9 +161,14 @@ def bffm2_humidity_factor(t_amb, p_amb, rel_hum=0.6):
 
 def bffm2_nox(ff, ei_cal, ff_cal, t_amb, p_amb):
     """NOx EI [g/kg] at SLS-equivalent flow ff > 0 for positive calibration data."""
+    return bffm2_nox_curve(ei_cal, ff_cal, t_amb, p_amb)(ff)
+
+
+def bffm2_nox_curve(ei_cal, ff_cal, t_amb, p_amb):
+    """The same as bffm2_nox with the fit and the ambient factor evaluated once."""
     slope, icpt = loglog_least_squares(ff_cal, ei_cal)
-    ei_sl = math.pow(10.0, icpt) * math.pow(ff, slope)
-    return ei_sl * bffm2_humidity_factor(t_amb, p_amb)
+    k = math.pow(10.0, icpt) * bffm2_humidity_factor(t_amb, p_amb)
+    return lambda ff: k * math.pow(ff, slope)
 
 
 # --------------------------------------------------------------------------- HC / CO
@@ -215,19 +220,29 @@ def hcco_fit(ei_cal, ff_cal):
 def hcco(ff, ei_cal, ff_cal, t_amb, p_amb):
     """HC or CO EI [g/kg] at SLS-equivalent fuel flow ff > 0.
 
-    Returns (value, alt) where alt is the value of the *other* segment (used by the caller
-    only within a few ulp of a discontinuous break point)."""
+    Returns (value, alt, break) where alt is the value of the *other* segment (used by the
+    caller only within a few ulp of a discontinuous break point)."""
+    return hcco_curve(ei_cal, ff_cal, t_amb, p_amb)(ff)
+
+
+def hcco_curve(ei_cal, ff_cal, t_amb, p_amb):
+    """The same as hcco with the fit and the ambient factor evaluated once."""
     ff_break, level, lower = hcco_fit(ei_cal, ff_cal)
-    lo = lower(ff)
-    val, alt = (lo, level) if ff < ff_break else (level, lo)
-    if ff < ff_cal[0]:
-        k = 1.0 + ACRP_SLOPE * (ff - ff_cal[0])
-        val *= k
-        alt *= k
     theta = t_amb / 288.15
     delta = p_amb / 101325.0
     corr = math.pow(theta, 3.3) / math.pow(delta, 1.02)
-    return val * corr, alt * corr, ff_break
+    f_idle = ff_cal[0]
+
+    def ev(ff):
+        lo = lower(ff)
+        val, alt = (lo, level) if ff < ff_break else (level, lo)
+        if ff < f_idle:
+            k = 1.0 + ACRP_SLOPE * (ff - f_idle)
+            val *= k
+            alt *= k
+        return val * corr, alt * corr, ff_break
+
+    return ev
 
 
 # --------------------------------------------------------------------------- SOx
